@@ -1,8 +1,8 @@
 (* Model/Opaque.v — SPECIFICATION functions (on integers) for multiplication, division,
    remainder, power, gcd, modular addition / multiplication / power, integer root, Montgomery
    multiplication, as used by the integer interpreter of Run/RunC04a.v.
-   For the opcodes listed in `History.opaque_ops` (wrapping_pow, root: their model belongs to C13,
-   not in /verif yet) Model/History.v uses these functions *in place of a model*; for the others
+   For the opcode listed in `History.opaque_ops` (root: its model takes a floating-point estimate
+   as an observed input, see REPORT) Model/History.v uses these functions *in place of a model*; for the others
    History.v uses the models of Model/{Mul,UDiv,Gcd,Modular,Redc}.v and PfC04a proves that they
    compute these functions.  Nothing here looks at limbs.
 
@@ -35,25 +35,21 @@ Fixpoint iroot_loop (k : nat) (x d r : Z) : Z :=
   end.
 Definition iroot (x d : Z) : Z := iroot_loop (Z.to_nat (Z.log2 x / d + 1)) x d 0.
 
-(* a^e mod 2^k, the same recursion with the reduction written as a mask *)
-Fixpoint pow_mod2_pos (a : Z) (e : positive) (k : Z) : Z :=
-  match e with
-  | xH => modp2 a k
-  | xO p => let r := pow_mod2_pos a p k in modp2 (r * r) k
-  | xI p => let r := pow_mod2_pos a p k in modp2 (modp2 (r * r) k * a) k
+(* modular inverse by the extended Euclidean algorithm on (m, a mod m): invariant t_i * a = r_i
+   (mod m); PfC04a.zmodinv_spec: for m >= 2 and gcd(a, m) = 1 the result is the inverse in [0, m) *)
+Fixpoint inv_loop (fuel : nat) (r0 r1 t0 t1 : Z) : Z * Z :=
+  match fuel with
+  | O => (r0, t0)
+  | S f => if r1 =? 0 then (r0, t0)
+           else inv_loop f r1 (r0 mod r1) t1 (t0 - (r0 / r1) * t1)
   end.
-Definition pow_mod2 (a e k : Z) : Z :=
-  match e with
-  | Z0 => modp2 1 k
-  | Zpos p => pow_mod2_pos a p k
-  | Zneg _ => 0
-  end.
+Definition zmodinv (a m : Z) : Z :=
+  snd (inv_loop (Z.to_nat (2 * Z.log2 m + 2)) m (a mod m) 0 1) mod m.
 
 Definition z_wrapping_mul (bits x y : Z) : zres := zw (modp2 (x * y) bits).
 (* algorithms::div panics on a zero divisor *)
 Definition z_wrapping_div (x y : Z) : zres := if y =? 0 then Panic else zw (x / y).
 Definition z_wrapping_rem (x y : Z) : zres := if y =? 0 then Panic else zw (x mod y).
-Definition z_wrapping_pow (bits x e : Z) : zres := zw (pow_mod2 x e bits).
 Definition z_gcd (x y : Z) : zres := zw (Z.gcd x y).
 (* a modulus of zero gives zero *)
 Definition z_add_mod (x y m : Z) : zres := zw (if m =? 0 then 0 else (x + y) mod m).
